@@ -64,6 +64,7 @@ Allowed(st, ev) ==
     [] ev.e = "unreg" -> TRUE
     \* the sandbox object is destroyed and created again (owners of the old incarnation live on):
     \* no registration of the earlier incarnation is visible in the new one
+    [] ev.e = "fnaddr" -> ev.out = "ok"
     [] ev.e = "recreate" -> Len(st.stack) = 0 /\ ev.out = "ok"
     \* ... and when those owners end, nothing of the new incarnation changes
     [] ev.e = "dropstale" -> ev.out = "ok"
@@ -75,6 +76,7 @@ Allowed(st, ev) ==
          ELSE /\ Len(st.stack) > 0
               /\ LET f == Top(st) IN
                  /\ ev.state = st.tstate[f.s]                    \* the CURRENT per-sandbox transition state
+                 /\ ("ptrok" \in DOMAIN ev => ev.ptrok)          \* the function identity of an invocation
                  /\ CASE f.k = "inv" /\ ev.kind = "INVOKE" /\ ev.dir = "in" ->
                            f.hook = "none" /\ ~f.ran /\ ev.who = "tree_fn"
                       [] f.k = "inv" /\ ev.kind = "INVOKE" /\ ev.dir = "out" ->
